@@ -139,7 +139,7 @@ Proof.
   intros ct opts Hct [Hp [Hd Hw]]. unfold pop_arg.
   destruct (arg_pos opts =? -1) eqn:E; [apply safe_pop_va; assumption|].
   destruct Hd as [Hd | Hd]; [lia|]. rewrite Hd.
-  eapply safe_bind; [apply safe_get_num_args|]. intros na Hna.
+  eapply safe_bind; [apply safe_get_num_args|]. intros na Hna. cbv beta in Hna.
   eapply safe_bind; [apply safe_pop_upto; [assumption | lia | lia]|]. intros _ _.
   eapply safe_bind.
   { destruct (na <=? arg_pos opts); [apply safe_set_num_args; lia | apply safe_ret; exact I]. }
@@ -157,3 +157,350 @@ Proof. intros m ct H; destruct m; inversion H; subst; unfold ctype_ok; cbn; repe
 
 Lemma interp_unsigned_nonneg : forall ct raw, ct_signed ct = false -> 0 <= interp ct raw.
 Proof. intros ct raw H. unfold interp. rewrite H. cbn [andb]. lia. Qed.
+
+(* ---- pure computations lifted into M *)
+Definition outcome_safe {A} (o : outcome A) (phi : A -> Prop) : Prop :=
+  match o with Ok a => phi a | AssertStop _ => True | UB w => caller_fault w | OutOfFuel => False end.
+
+Lemma safe_lift : forall A (o : outcome A) (phi : A -> Prop), outcome_safe o phi -> safe (lift o) phi.
+Proof. intros A o phi H st Hst. unfold lift. destruct o; cbn in *; auto. Qed.
+
+Lemma print_int_safe : forall number radix width prec padding lj gt asign pspace caps prefix,
+  (radix = 2 \/ radix = 8 \/ radix = 10 \/ radix = 16)%N -> - 2 ^ 63 <= number < 2 ^ 64 ->
+  outcome_safe (print_int 64 number radix width prec padding lj gt asign pspace caps default_locale prefix) (fun _ => True).
+Proof.
+  intros. rewrite print_int_spec; [exact I | lia | lia | lia | lia | change (Z.of_N 64 - 1) with 63; lia].
+Qed.
+
+Lemma c_strnlen_safe : forall buf m acc, outcome_safe (c_strnlen buf m acc) (fun _ => True).
+Proof.
+  induction buf as [|ch r IH]; intros m acc; destruct m as [[|m]|]; cbn [c_strnlen]; try exact I.
+  - right; right; reflexivity.
+  - right; right; reflexivity.
+  - destruct (N.eqb ch 0); [exact I | apply IH].
+  - destruct (N.eqb ch 0); [exact I | apply IH].
+Qed.
+
+Lemma copy_chars_safe : forall n buf, outcome_safe (copy_chars n buf) (fun _ => True).
+Proof.
+  induction n as [|n IH]; intros buf; cbn [copy_chars]; [exact I|].
+  destruct buf as [|ch r]; [right; right; reflexivity|].
+  destruct (N.eqb ch 0); [exact I|].
+  specialize (IH r). destruct (copy_chars n r); cbn in *; auto.
+Qed.
+
+Ltac sintro := let a := fresh "a" in let H := fresh "H" in intros a H; cbv beta in H.
+Ltac sbind_with t := eapply safe_bind; [ t | sintro ].
+Ltac sbind0 := eapply safe_bind.
+
+Lemma safe_printf_string : forall mem opts, opts_ok opts -> safe (printf_string mem opts) (fun _ => True).
+Proof.
+  intros mem opts Ho. unfold printf_string.
+  sbind_with ltac:(apply safe_pop_arg; [apply ct_ok_all | assumption]).
+  sbind0.
+  { instantiate (1 := fun _ => True).
+    destruct (a =? 0); [apply safe_ret; exact I|].
+    destruct (mem_lookup mem (Z.to_N a)); [apply safe_ret; exact I|].
+    intros st Hst. cbn. right; left; reflexivity. }
+  sintro.
+  sbind0.
+  { apply safe_lift. instantiate (1 := fun _ => True).
+    destruct (precision opts); apply c_strnlen_safe. }
+  sintro.
+  sbind_with ltac:(apply safe_lift; apply copy_chars_safe).
+  destruct (left_justify opts); apply safe_emit.
+Qed.
+
+Lemma safe_do_printf_chars : forall mem t opts szmod, opts_ok opts ->
+  safe (do_printf_chars mem t opts szmod) (fun _ => True).
+Proof.
+  intros mem t opts szmod Ho. unfold do_printf_chars.
+  destruct (N.eqb t 112).
+  { sbind_with ltac:(apply safe_assert). sbind_with ltac:(apply safe_assert). sbind_with ltac:(apply safe_assert).
+    sbind_with ltac:(apply safe_assert). sbind_with ltac:(apply safe_emit).
+    sbind_with ltac:(apply safe_pop_arg; [apply ct_ok_all | assumption]).
+    sbind_with ltac:(apply safe_lift; unfold print_int_default; apply print_int_safe; [right; right; right; reflexivity | assumption]).
+    apply safe_emit. }
+  destruct (N.eqb t 99).
+  { sbind_with ltac:(apply safe_assert). sbind_with ltac:(apply safe_assert). sbind_with ltac:(apply safe_assert).
+    sbind_with ltac:(apply safe_assert).
+    destruct Ho as [Hp [Hd Hw]].
+    replace (minimum_width opts =? INT_MIN) with false by (unfold INT_MIN; lia).
+    destruct (left_justify opts).
+    - sbind_with ltac:(apply safe_pop_arg; [apply ct_ok_all | repeat split; assumption || lia]).
+      sbind_with ltac:(apply safe_emit). apply safe_emit.
+    - sbind_with ltac:(apply safe_emit).
+      sbind_with ltac:(apply safe_pop_arg; [apply ct_ok_all | repeat split; assumption || lia]).
+      apply safe_emit. }
+  destruct (N.eqb t 115).
+  { sbind_with ltac:(apply safe_assert). sbind_with ltac:(apply safe_assert).
+    destruct (szmod_eqb szmod default_size); [apply safe_printf_string; assumption|].
+    sbind_with ltac:(apply safe_assert). apply safe_printf_string; assumption. }
+  apply safe_fail_assert.
+Qed.
+
+Lemma safe_print_unsigned : forall opts number radix prec prefix gt caps,
+  (radix = 2 \/ radix = 8 \/ radix = 10 \/ radix = 16)%N -> - 2 ^ 63 <= number < 2 ^ 64 ->
+  safe (print_unsigned opts number radix prec prefix gt caps) (fun _ => True).
+Proof.
+  intros. unfold print_unsigned.
+  sbind_with ltac:(apply safe_lift; apply print_int_safe; assumption). apply safe_emit.
+Qed.
+
+Lemma safe_do_printf_ints : forall t opts szmod, opts_ok opts ->
+  safe (do_printf_ints t opts szmod) (fun _ => True).
+Proof.
+  intros t opts szmod Ho. unfold do_printf_ints.
+  destruct (N.eqb t 100 || N.eqb t 105).
+  { sbind_with ltac:(apply safe_assert).
+    destruct (signed_type szmod) as [ct|] eqn:E; [|apply safe_fail_assert].
+    sbind_with ltac:(apply safe_pop_arg; [apply (signed_type_ok _ _ E) | assumption]).
+    sbind_with ltac:(apply safe_lift; apply print_int_safe; [right; right; left; reflexivity | assumption]).
+    apply safe_emit. }
+  destruct (N.eqb t 98 || N.eqb t 66 || N.eqb t 111 || N.eqb t 120 || N.eqb t 88).
+  { destruct (unsigned_type szmod) as [ct|] eqn:E; [|apply safe_fail_assert].
+    sbind_with ltac:(apply safe_pop_arg; [apply (unsigned_type_ok _ _ E) | assumption]).
+    destruct (N.eqb t 98); [apply safe_print_unsigned; [left; reflexivity | assumption]|].
+    destruct (N.eqb t 66); [apply safe_print_unsigned; [left; reflexivity | assumption]|].
+    destruct (N.eqb t 111); [apply safe_print_unsigned; [right; left; reflexivity | assumption]|].
+    destruct (N.eqb t 120); apply safe_print_unsigned; try assumption; right; right; right; reflexivity. }
+  destruct (N.eqb t 117).
+  { destruct (unsigned_type szmod) as [ct|] eqn:E; [|apply safe_fail_assert].
+    sbind_with ltac:(apply safe_pop_arg; [apply (unsigned_type_ok _ _ E) | assumption]).
+    sbind_with ltac:(apply safe_assert).
+    apply safe_print_unsigned; [right; right; left; reflexivity | assumption]. }
+  apply safe_fail_assert.
+Qed.
+
+Lemma safe_agent : forall mem t opts szmod, opts_ok opts -> safe (agent mem t opts szmod) (fun _ => True).
+Proof.
+  intros. unfold agent.
+  destruct (N.eqb t 99 || N.eqb t 112 || N.eqb t 115);
+    [apply safe_do_printf_chars | apply safe_do_printf_ints]; assumption.
+Qed.
+
+(* ------------------------------------------------------------------------------------------ *)
+(* the parser, over an arbitrary byte list                                                      *)
+(* ------------------------------------------------------------------------------------------ *)
+Section Parser.
+Variable s : list byte.
+
+Lemma safe_read : forall i, (i <= length s)%nat ->
+  safe (read s i) (fun c => c <> 0%N -> (i < length s)%nat).
+Proof.
+  intros i Hi. unfold read.
+  destruct (Nat.ltb i (length s)) eqn:E.
+  - apply safe_ret. intros _. apply Nat.ltb_lt. exact E.
+  - destruct (Nat.eqb i (length s)) eqn:E2.
+    + apply safe_ret. intros H; congruence.
+    + apply Nat.ltb_ge in E. apply Nat.eqb_neq in E2. lia.
+Qed.
+
+Lemma safe_assert_nz : forall i, (i <= length s)%nat -> safe (assert_nz s i) (fun _ => (i < length s)%nat).
+Proof.
+  intros i Hi. unfold assert_nz. sbind_with ltac:(apply safe_read; assumption).
+  eapply safe_weaken; [apply safe_assert|]. cbv beta. intros _ Hb.
+  apply H. intro Ha. subst a. discriminate.
+Qed.
+
+Lemma is_digit_nz : forall c, is_digit c = true -> c <> 0%N.
+Proof. intros c H ->. discriminate. Qed.
+
+Lemma safe_scan_literal : forall fuel pos n, (pos + n <= length s)%nat -> (length s - (pos + n) < fuel)%nat ->
+  safe (scan_literal s fuel pos n) (fun n' => (n <= n' /\ pos + n' <= length s)%nat).
+Proof.
+  induction fuel as [|fuel IH]; intros pos n Hp Hf; [lia|]. cbn [scan_literal].
+  sbind_with ltac:(apply safe_read; assumption).
+  destruct (negb (N.eqb a 0) && negb (N.eqb a 37)) eqn:E.
+  - assert (Ha : a <> 0%N) by (intro; subst a; discriminate). specialize (H Ha).
+    eapply safe_weaken; [apply IH; lia|]. cbv beta. intros n' Hn'. lia.
+  - apply safe_ret. lia.
+Qed.
+
+Lemma set_flag_ok : forall c o o', set_flag c o = Some o' -> opts_ok o -> opts_ok o'.
+Proof.
+  intros c o o' H Ho. destruct o. unfold set_flag in H.
+  repeat (match type of H with (if ?b then _ else _) = _ => destruct b end);
+    try discriminate; inversion H; subst; exact Ho.
+Qed.
+Lemma set_arg_pos_ok : forall p o, -1 <= p <= 8 -> opts_ok o -> opts_ok (set_arg_pos p o).
+Proof. intros p o Hp Ho. destruct o. unfold opts_ok in *. cbn in *. repeat split; try lia; try (right; reflexivity). Qed.
+Lemma set_width_ok : forall w o, 0 <= w -> opts_ok o -> opts_ok (set_width w o).
+Proof. intros w o Hw Ho. destruct o. unfold opts_ok in *. cbn in *. repeat split; try lia; try tauto. Qed.
+Lemma set_precision_ok : forall p o, opts_ok o -> opts_ok (set_precision p o).
+Proof. intros p o Ho. destruct o. exact Ho. Qed.
+Lemma set_left_ok : forall o, opts_ok o -> opts_ok (set_left o).
+Proof. intros o Ho. destruct o. exact Ho. Qed.
+Lemma set_dollar_default_ok : forall b, opts_ok (set_dollar b default_options).
+Proof. intros b. unfold opts_ok. cbn. repeat split; try lia; try (left; reflexivity). Qed.
+
+Definition flags_post (p0 : nat) (x : nat * format_options * bool) : Prop :=
+  (p0 <= fst (fst x) < length s)%nat /\ opts_ok (snd (fst x)).
+
+Lemma safe_flags_loop : forall fuel pos opts dollar, (pos < length s)%nat -> opts_ok opts ->
+  (length s - pos < fuel)%nat -> safe (flags_loop s fuel pos opts dollar) (flags_post pos).
+Proof.
+  induction fuel as [|fuel IH]; intros pos opts dollar Hp Ho Hf; [lia|]. cbn [flags_loop].
+  sbind_with ltac:(apply safe_read; lia). rename a into c.
+  sbind0.
+  { instantiate (1 := fun b => b = true -> is_digit c = true /\ (pos + 1 < length s)%nat).
+    destruct (is_digit c) eqn:Ed.
+    - sbind_with ltac:(apply safe_read; lia). apply safe_ret. intros Hb. split; [reflexivity|].
+      apply H0. intro Ha. subst a. discriminate.
+    - apply safe_ret. discriminate. }
+  sintro.
+  rename a into positional. destruct positional.
+  - destruct (H0 eq_refl) as [H0' H0'']. clear H0. rename H0' into H0.
+    sbind_with ltac:(apply safe_assert_nz; lia).
+    eapply safe_weaken; [apply IH; [assumption | | lia]|].
+    + apply set_arg_pos_ok; [|assumption]. unfold is_digit in H0. lia.
+    + intros x [Hx1 Hx2]. split; [lia | assumption].
+  - destruct (set_flag c opts) as [o'|] eqn:Es.
+    + sbind_with ltac:(apply safe_assert_nz; lia).
+      eapply safe_weaken; [apply IH; [assumption | eapply set_flag_ok; eassumption | lia]|].
+      intros x [Hx1 Hx2]. split; [lia | assumption].
+    + apply safe_ret. split; [cbn [fst]; lia | cbn [snd]; assumption].
+Qed.
+
+Definition number_post (p0 : nat) (x : nat * Z) : Prop := (p0 <= fst x < length s)%nat /\ 0 <= snd x <= INT_MAX.
+
+Lemma safe_number_loop : forall fuel msg pos w, (pos < length s)%nat -> 0 <= w <= INT_MAX ->
+  (length s - pos < fuel)%nat -> safe (number_loop s fuel msg pos w) (number_post pos).
+Proof.
+  induction fuel as [|fuel IH]; intros msg pos w Hp Hw Hf; [lia|]. cbn [number_loop].
+  sbind_with ltac:(apply safe_read; lia). rename a into c.
+  destruct (is_digit c) eqn:Ed.
+  - sbind_with ltac:(apply safe_assert).
+    assert (Hd : 0 <= Z.of_N c - 48 <= 9) by (unfold is_digit in Ed; lia).
+    assert (Hb : w * 10 + (Z.of_N c - 48) <= INT_MAX).
+    { pose proof (Z.mul_div_le (INT_MAX - (Z.of_N c - 48)) 10 ltac:(lia)). lia. }
+    replace (in_int (w * 10)) with true by (unfold in_int, INT_MIN, INT_MAX in *; lia).
+    replace (in_int (w * 10 + (Z.of_N c - 48))) with true by (unfold in_int, INT_MIN, INT_MAX in *; lia).
+    cbn [negb].
+    sbind_with ltac:(apply safe_assert_nz; lia).
+    eapply safe_weaken; [apply IH; [assumption | lia | lia]|].
+    intros x [Hx1 Hx2]. split; [lia | assumption].
+  - apply safe_ret. split; [cbn [fst]; lia | cbn [snd]; assumption].
+Qed.
+
+Lemma safe_parse_size_mod : forall pos, (pos < length s)%nat ->
+  safe (parse_size_mod s pos) (fun x => (pos <= fst x < length s)%nat).
+Proof.
+  intros pos Hp. unfold parse_size_mod.
+  sbind_with ltac:(apply safe_read; lia). rename a into c.
+  destruct (N.eqb c 108).
+  { sbind_with ltac:(apply safe_assert_nz; lia). sbind_with ltac:(apply safe_read; lia).
+    destruct (N.eqb a0 108).
+    - sbind_with ltac:(apply safe_assert_nz; lia). apply safe_ret; cbn [fst]; lia.
+    - apply safe_ret; cbn [fst]; lia. }
+  destruct (N.eqb c 122); [sbind_with ltac:(apply safe_assert_nz; lia); apply safe_ret; cbn [fst]; lia|].
+  destruct (N.eqb c 76); [sbind_with ltac:(apply safe_assert_nz; lia); apply safe_ret; cbn [fst]; lia|].
+  destruct (N.eqb c 104).
+  { sbind_with ltac:(apply safe_assert_nz; lia). sbind_with ltac:(apply safe_read; lia).
+    destruct (N.eqb a0 104).
+    - sbind_with ltac:(apply safe_assert_nz; lia). apply safe_ret; cbn [fst]; lia.
+    - apply safe_ret; cbn [fst]; lia. }
+  destruct (N.eqb c 116); [sbind_with ltac:(apply safe_assert_nz; lia); apply safe_ret; cbn [fst]; lia|].
+  destruct (N.eqb c 106); [sbind_with ltac:(apply safe_assert_nz; lia); apply safe_ret; cbn [fst]; lia|].
+  apply safe_ret; cbn [fst]; lia.
+Qed.
+
+Lemma safe_star_width : forall w opts, opts_ok opts -> safe (star_width w opts) opts_ok.
+Proof.
+  intros w opts Ho. unfold star_width. destruct (w <? 0) eqn:E.
+  - sbind_with ltac:(apply safe_assert). apply safe_ret. apply set_width_ok; [lia | apply set_left_ok; assumption].
+  - apply safe_ret. apply set_width_ok; [lia | assumption].
+Qed.
+
+Section WithAgent.
+Variable ag : byte -> format_options -> printf_size_mod -> M unit.
+Hypothesis ag_safe : forall t opts szmod, opts_ok opts -> safe (ag t opts szmod) (fun _ => True).
+
+Definition pos_opts_post (p0 : nat) (x : nat * format_options) : Prop := (p0 <= fst x < length s)%nat /\ opts_ok (snd x).
+
+Lemma safe_parse_directive : forall pos dollar, (pos < length s)%nat ->
+  safe (parse_directive s ag pos dollar) (fun x => (pos < fst x <= length s)%nat).
+Proof.
+  intros pos dollar Hp. unfold parse_directive.
+  sbind_with ltac:(apply safe_flags_loop; [assumption | apply set_dollar_default_ok | lia]).
+  destruct a as [[pos1 opts1] dollar1]. destruct H as [Hp1 Ho1]. cbn [fst snd] in Hp1, Ho1.
+  sbind_with ltac:(apply safe_read; lia). rename a into c.
+  sbind0.
+  { instantiate (1 := pos_opts_post pos1).
+    destruct (N.eqb c 42).
+    - sbind_with ltac:(apply safe_assert_nz; lia).
+      sbind_with ltac:(apply safe_pop_arg; [apply ct_ok_all | assumption]).
+      sbind_with ltac:(apply safe_star_width; assumption).
+      apply safe_ret. split; [cbn [fst]; lia | cbn [snd]; assumption].
+    - sbind_with ltac:(apply safe_number_loop; [lia | unfold INT_MAX; lia | lia]).
+      destruct H0 as [Hz1 Hz2]. apply safe_ret. split; [cbn [fst] in *; lia|].
+      apply set_width_ok; [lia | assumption]. }
+  sintro.
+  destruct a as [pos2 opts2]. destruct H0 as [Hp2 Ho2]. cbn [fst snd] in Hp2, Ho2.
+  sbind_with ltac:(apply safe_read; lia). rename a into c2.
+  sbind0.
+  { instantiate (1 := pos_opts_post pos2).
+    destruct (N.eqb c2 46).
+    - sbind_with ltac:(apply safe_assert_nz; lia). sbind_with ltac:(apply safe_read; lia).
+      destruct (N.eqb a0 42).
+      + sbind_with ltac:(apply safe_assert_nz; lia).
+        sbind_with ltac:(apply safe_pop_arg; [apply ct_ok_all | assumption]).
+        apply safe_ret. split; [cbn [fst] in *; lia|].
+        destruct (0 <=? a2); [apply set_precision_ok|]; assumption.
+      + sbind_with ltac:(apply safe_number_loop; [lia | unfold INT_MAX; lia | lia]).
+        destruct H3 as [Hz1 Hz2]. apply safe_ret. split; [cbn [fst] in *; lia|].
+        apply set_precision_ok; assumption.
+    - apply safe_ret. split; [cbn [fst]; lia | cbn [snd]; assumption]. }
+  sintro.
+  destruct a as [pos3 opts3]. destruct H1 as [Hp3 Ho3]. cbn [fst snd] in Hp3, Ho3.
+  sbind_with ltac:(apply safe_parse_size_mod; lia).
+  destruct a as [pos4 szmod]. cbn [fst] in H1.
+  sbind_with ltac:(apply safe_read; lia).
+  sbind_with ltac:(apply ag_safe; assumption).
+  apply safe_ret. cbn [fst]. lia.
+Qed.
+
+Lemma safe_format_loop : forall fuel pos dollar, (pos <= length s)%nat -> (length s - pos < fuel)%nat ->
+  safe (format_loop s ag fuel pos dollar) (fun _ => True).
+Proof.
+  induction fuel as [|fuel IH]; intros pos dollar Hp Hf; [lia|]. cbn [format_loop].
+  sbind_with ltac:(apply safe_read; assumption). rename a into c.
+  destruct (N.eqb c 0) eqn:E0; [apply safe_ret; exact I|].
+  assert (Hc : (pos < length s)%nat) by (apply H; intro; subst c; discriminate).
+  destruct (negb (N.eqb c 37)).
+  - sbind_with ltac:(apply safe_scan_literal; lia).
+    sbind_with ltac:(apply safe_emit).
+    apply IH; lia.
+  - sbind_with ltac:(apply safe_assert_nz; lia).
+    sbind_with ltac:(apply safe_read; lia).
+    destruct (N.eqb a0 37).
+    + sbind_with ltac:(apply safe_emit). apply IH; lia.
+    + sbind_with ltac:(apply safe_parse_directive; assumption).
+      apply IH; lia.
+Qed.
+
+Lemma safe_printf_format_with : safe (printf_format_with s ag) (fun _ => True).
+Proof. unfold printf_format_with. apply safe_format_loop; lia. Qed.
+
+End WithAgent.
+End Parser.
+
+(* ------------------------------------------------------------------------------------------ *)
+(* the statement                                                                                *)
+(* ------------------------------------------------------------------------------------------ *)
+Theorem printf_format_total_safe : forall (mem : memory) (s : list byte) (args cache : list N),
+  (9 <= length cache)%nat ->
+  match snd (run_printf mem s args cache) with
+  | Ok _ => True
+  | AssertStop _ => True
+  | UB w => caller_fault w
+  | OutOfFuel => False
+  end.
+Proof.
+  intros mem s args cache Hc. unfold run_printf, printf_format.
+  pose proof (safe_printf_format_with s (agent mem) (safe_agent mem)
+                (mk_ps [] (mk_vs args [] cache 0))) as H.
+  assert (Hst : st_ok (mk_ps [] (mk_vs args [] cache 0))) by (split; cbn; lia).
+  specialize (H Hst).
+  destruct (printf_format_with s (agent mem) (mk_ps [] (mk_vs args [] cache 0))) as [st' [a|w|w|]]; cbn [snd]; try exact I; try exact H.
+Qed.
